@@ -5,6 +5,7 @@ the "Type parsers" of `parser.rs` and of the type printer of `format.rs`; lemmas
 
   fuel_suffices, fuel_monotone, fuel_irrelevant     the fuel that ties the recursive knot
   partial_or_group_factored_eq, factored_eq_fuel, paren_alternatives_eq
+  receive_factored_eq, receive_factored_eq_fuel, receive_alternative_eq   (1d93429: receive type read once)
                                                     the left-factored grammar (repair of C18-F1) is
                                                     the same function as the old alternative order
   parseType_total, parseBaseType_total, typeAlias_total     (T1) totality + progress + located errors
@@ -16,6 +17,7 @@ the "Type parsers" of `parser.rs` and of the type printer of `format.rs`; lemmas
   print_idempotent (= PrintIdempotentStatement, FULL), print_idempotent_partial   (T3)
 -/
 import QuiverModel.Lemmas.Parse.Factored
+import QuiverModel.Lemmas.Parse.Receive
 import QuiverModel.Lemmas.Parse.WF
 import QuiverModel.Lemmas.Text.Basic
 namespace C18Types
@@ -64,6 +66,32 @@ theorem paren_alternatives_eq (k : Knot) :
   ⟨baseTypeF_eq (KHead.step k), functionIoTypeF_eq (KHead.step k)⟩
 
 theorem parseTypeF_eq : parseTypeF = parseType := funext partial_or_group_factored_eq
+
+/-! ## The grammar since /repo 1d93429 (receive position read once) is the same function
+
+`parseTypeG` is the model of the code since 1d93429: `paren_type` continues the parenthesised
+process forms `(@-> t)` / `(@t -> t)` from the first field it has already read
+(`paren_process_from_first`) instead of trying the separate alternative, which parsed the receive
+type a second time (exponential in the nesting depth of the receive position). -/
+
+/-- **receive_factored_eq**: for EVERY input the grammar of the code since 1d93429 and the original
+    grammar return the same result — value, remainder, error position and code. -/
+theorem receive_factored_eq (i : Str) : parseTypeG i = parseType i :=
+  (knotG_eq (i.length + 1) i (Nat.lt_succ_self _)).1
+
+/-- the same with any sufficient fuel, for `type_definition` and `base_type` -/
+theorem receive_factored_eq_fuel (n : Nat) (i : Str) (h : i.length < n) :
+    (knotG n).td i = (knot n).td i ∧ (knotG n).bt i = (knot n).bt i := knotG_eq n i h
+
+/-- one level, every input, whatever the fuel: over any knot of the grammar, `paren_type` with the
+    continuation from the first field IS `paren_type` with the separate alternative (the proof uses
+    that `type_definition` on `@…` reads the receive type with the `base_type` ONE LEVEL BELOW the one
+    the alternative uses, and that the two agree: monotonicity across knot levels, `knot_krecv`). -/
+theorem receive_alternative_eq (n : Nat) (groupFirst : Bool) :
+    parenTypeG groupFirst (knot (n + 1)) = parenType groupFirst (knot (n + 1)) :=
+  parenTypeG_eq (knot_krecv n) groupFirst
+
+theorem parseTypeG_eq : parseTypeG = parseType := funext receive_factored_eq
 
 /-! ## (T1) totality, progress, located errors -/
 
@@ -133,12 +161,12 @@ theorem typeAlias_total (i : Str) :
         utf8Len pre + utf8Len pos = utf8Len i) := by
   have hsound : Sound typeAlias := by
     unfold typeAlias
-    rw [parseTypeF_eq]
+    rw [parseTypeG_eq]
     have := Sound.parseType; have := Sound.typeName; have := Sound.commaWs0
     sound_tac
   have hno : Tot (i.length + 1) typeAlias := by
     unfold typeAlias
-    rw [parseTypeF_eq]
+    rw [parseTypeG_eq]
     have := NoOut.tot NoOut.parseType (i.length + 1)
     have := Sound.parseType
     tot_tac
@@ -175,7 +203,7 @@ theorem parseBaseType_wf (i : Str) (t : Ty) (rest : Str) (h : parseBaseType i = 
     parameters are identifiers, the type is `WFType`). -/
 theorem typeAlias_wf (i : Str) (a : Alias) (rest : Str) (h : typeAlias i = .ok a rest) :
     a.wf = true := by
-  have hpt : Post WFp parseTypeF := fun j t r e => parseTypeF_wf j t r e
+  have hpt : Post WFp parseTypeG := fun j t r e => parseType_wf j t r (by rw [← receive_factored_eq]; exact e)
   have : Post (fun a : Alias => a.wf = true) typeAlias := by
     unfold typeAlias
     refine Post.bind (Post.seq (Post.opt Post.identifier)) (fun name hname =>
@@ -245,6 +273,11 @@ theorem roundtrip : RoundTripStatement :=
 theorem roundtrip_factored (t : Ty) (hw : WFType t) (rest : Str) (hr : stopTd rest = true) :
     parseTypeF (printTy t ++ rest) = .ok t rest := by
   rw [partial_or_group_factored_eq]; exact roundtrip t hw rest hr
+
+/-- … and for the grammar of the code since 1d93429 -/
+theorem roundtrip_code (t : Ty) (hw : WFType t) (rest : Str) (hr : stopTd rest = true) :
+    parseTypeG (printTy t ++ rest) = .ok t rest := by
+  rw [receive_factored_eq]; exact roundtrip t hw rest hr
 
 /-- parse ∘ print ∘ parse = parse: what the parser returns is a fixpoint of print-then-parse -/
 theorem parse_print_parse (i : Str) (t : Ty) (r : Str) (h : parseType i = .ok t r) (rest : Str)
